@@ -69,13 +69,14 @@ def main():
     if confirm_only:
         checks = []
     # B: run checks against /repo
-    rc, o = sh('git status --porcelain --untracked-files=no', cwd='/repo')
-    if o.strip():
-        print('/repo not clean'); sys.exit(2)
-    rc, o = sh(f'git apply {src}/patch.diff', cwd='/repo')
-    if rc != 0:
-        print('patch does not apply to /repo:', o); sys.exit(2)
     results = {}
+    if not confirm_only:
+        rc, o = sh('git status --porcelain --untracked-files=no', cwd='/repo')
+        if o.strip():
+            print('/repo not clean'); sys.exit(2)
+        rc, o = sh(f'git apply {src}/patch.diff', cwd='/repo')
+        if rc != 0:
+            print('patch does not apply to /repo:', o); sys.exit(2)
     try:
         for c in checks:
             t0 = time.time()
